@@ -805,10 +805,19 @@ func TypeConforms(ctx map[ast.Variable]ast.BaseTerm, left ast.BaseTerm, right as
 	}
 	if leftConst, ok := left.(ast.Constant); ok {
 		if rightConst, ok := right.(ast.Constant); ok {
-			if strings.HasPrefix(leftConst.Symbol, rightConst.Symbol) {
-				return true
+			// A name constant that is not one of the base types denotes the names strictly
+			// below that prefix. (Equality and right == /any were handled above.)
+			isPrefixType := func(c ast.Constant) bool {
+				return c.Type == ast.NameType && !IsBaseTypeExpression(c) &&
+					!c.Equals(ast.NameBound) && !c.Equals(ast.TimeBound) && !c.Equals(ast.DurationBound)
 			}
-			return leftConst.Type == ast.NameType && rightConst.Equals(ast.NameBound)
+			if !isPrefixType(leftConst) {
+				return false
+			}
+			if isPrefixType(rightConst) {
+				return strings.HasPrefix(leftConst.Symbol, rightConst.Symbol+"/")
+			}
+			return rightConst.Equals(ast.NameBound)
 		}
 	}
 	// fn:Singleton(c) <: T if c is a member of T.
